@@ -1388,15 +1388,23 @@ namespace bloch::runtime {
             if (obj.use_count() - 1 > traced[obj.get()])
                 markObject(obj);
         }
-        // An unreachable object that owns qubits or tracked state is not reclaimed here: it is
-        // destroyed in the ordinary way (destructor, reset, tracked outcome) when its last owner
-        // goes. Whatever it still refers to therefore has to stay intact, and while the program
-        // is running so does everything that still refers to it: clearing such a referrer would
-        // destroy the object at whatever moment the collector happened to run. Those referrers
-        // are reclaimed by the collection at the end of the run instead.
+        // An object whose destruction can be observed (a destructor body somewhere in its class
+        // chain, qubits to reset, a tracked outcome to record) is not reclaimed here: it is
+        // destroyed in the ordinary way when its last owner goes. Whatever it still refers to
+        // therefore has to stay intact, and while the program is running so does everything that
+        // still refers to it, whether the object is reachable at the moment or not: clearing such
+        // a referrer would move the moment the object dies to wherever the collector happened to
+        // run. Those referrers are reclaimed by the collection at the end of the run instead.
+        auto destructionIsObservable = [](const RuntimeClass* cls) {
+            for (const RuntimeClass* c = cls; c; c = c->base) {
+                if (c->hasTrackedFields || (c->destructorDecl && c->destructorDecl->body))
+                    return true;
+            }
+            return false;
+        };
         std::unordered_set<const Object*> kept;
         for (const auto& obj : objects) {
-            if (!obj->marked && obj->cls && obj->cls->hasTrackedFields)
+            if (obj->cls && destructionIsObservable(obj->cls))
                 kept.insert(obj.get());
         }
         if (!m_stopGc.load()) {
